@@ -14,8 +14,8 @@ import os
 
 import vlib
 
-KFLAGS_Q = ["O_CREAT", "O_EXCL", "O_TRUNC", "O_APPEND", "O_NOFOLLOW", "O_DIRECTORY"]
-KFLAGS_T = KFLAGS_Q + ["O_CLOEXEC", "O_PATH"]
+KFLAGS_Q = ["O_CREAT", "O_EXCL", "O_TRUNC", "O_APPEND", "O_NOFOLLOW"]
+KFLAGS_T = KFLAGS_Q + ["O_DIRECTORY", "O_CLOEXEC", "O_PATH"]
 
 
 def gen_cfg(ctx, all3, kflags):
@@ -73,7 +73,7 @@ def run(ctx):
         ctx.cov["mc_states"] = m.distinct
 
     # ---- 2. cases
-    n_sel = 1 if ctx.replay else ctx.pick(700, 3000)
+    n_sel = 1 if ctx.replay else ctx.pick(600, 3000)
     sel = [[ctx.rng.randrange(1 << 30), ctx.rng.randrange(999983), ctx.rng.randrange(999979)] for _ in range(n_sel)]
     g = ctx.tlc("PathWalk_Gen", cfg=gen_cfg(ctx, not ctx.quick() and not ctx.replay, ctx.pick(KFLAGS_Q, KFLAGS_T)),
                 files={"sel.ndjson": sel}, timeout=900, count=False, heap="12g")
